@@ -145,8 +145,10 @@ def check_histories(rep, rng, n):
             rep.violation("model-mismatch:dbfs-files", f"history under {h['commit_type']}: the file system differs from the model at "
                           f"{[bytes.fromhex(k).decode('utf-8', 'replace') for k, _ in diff]}", {"history": h, "impl": o["files"], "model": mfiles})
         # the property itself, on histories where every call completed: dictionary semantics, copies, nothing else
-        if "0" in o["oks"]:
-            continue
+        seen_content = {}
+        write_once = all(seen_content.setdefault(op[1], op[2]) == op[2] for op in h["hist"] if op[0] == "blob")
+        if "0" in o["oks"] or not write_once:
+            continue            # not an admissible history (hist_ok): only the comparison with the model applies
         mode = expected_mode(h["commit_type"])
         want, blobs = {}, {}
         for op in h["hist"]:
